@@ -13,8 +13,17 @@ var urlRE = regexp.MustCompile("(?i)\\b((?:[a-z][\\w-]+:(?:/{1,3}|[a-z0-9%])|www
 // TextToHTML takes plain text, escapes it and tries to pretty it up for
 // HTML display
 func TextToHTML(text string) string {
-	text = html.EscapeString(text)
-	text = urlRE.ReplaceAllStringFunc(text, WrapURL)
+	// Locate URLs in the raw text and escape each piece separately; matching on escaped text could
+	// split an entity (ex: &#39;) between a link and the text following it.
+	b := &strings.Builder{}
+	last := 0
+	for _, loc := range urlRE.FindAllStringIndex(text, -1) {
+		b.WriteString(html.EscapeString(text[last:loc[0]]))
+		b.WriteString(WrapURL(html.EscapeString(text[loc[0]:loc[1]])))
+		last = loc[1]
+	}
+	b.WriteString(html.EscapeString(text[last:]))
+	text = b.String()
 	replacer := strings.NewReplacer("\r\n", "<br/>\n", "\r", "<br/>\n", "\n", "<br/>\n")
 	return replacer.Replace(text)
 }
